@@ -13,6 +13,7 @@ import random
 import re
 import subprocess
 import time
+import zlib
 from concurrent.futures import ThreadPoolExecutor
 
 from .. import vlib, runner
@@ -102,7 +103,7 @@ def ctor_probes(workdir, quick):
             ext["rand09"] = rl[0]
         elif name == "rand" and "@0.8" in pid:
             ext["rand08"] = rl[0]
-        elif name in ("arbitrary", "quickcheck"):
+        elif name in ("arbitrary", "quickcheck", "bytemuck"):
             ext[name] = rl[0]
     if "ruint" not in ext:
         raise ToolError("could not locate the ruint rlib for the constructor probes")
@@ -114,7 +115,7 @@ def ctor_probes(workdir, quick):
     names = sorted(CTORS)
     for (b, l) in prs:
         for name in names:
-            if quick and (b, l) in ILL[3:] and hash((b, l, name)) % 3:
+            if quick and (b, l) in ILL[3:] and zlib.crc32(f"{b},{l},{name}".encode()) % 3:      # deterministic (hash() is salted per process)
                 continue
             expr = CTORS[name].replace("{B}", str(b)).replace("{L}", str(l)).replace("{N}", str((b + 7) // 8))
             src = ("#![allow(unused, deprecated)]\nuse std::str::FromStr;\ntype U = ruint::Uint<%d, %d>;\n"
@@ -122,6 +123,16 @@ def ctor_probes(workdir, quick):
                    "    let r = std::panic::catch_unwind(|| { let x: U = %s; format!(\"{:?}\", x.as_limbs()) });\n"
                    "    match r { Ok(s) => println!(\"obtained {s}\"), Err(_) => println!(\"panic\") }\n}\n") % (b, l, expr)
             jobs.append((b, l, name, src))
+
+    # reinterpreting bytes as a Uint through bytemuck is a SAFE way to obtain a value: it may exist only for widths that have no
+    # unused bits (every bit pattern canonical).  One probe per width: all-ones bytes read as Uint<b, l> via pod_read_unaligned.
+    if "bytemuck" in ext:
+        for (b, l) in [(64, 1), (128, 2), (256, 4), (1, 1), (8, 1), (63, 1), (65, 2), (100, 2), (127, 2), (255, 4), (257, 5), (0, 0)]:
+            src = ("#![allow(unused)]\ntype U = ruint::Uint<%d, %d>;\n"
+                   "fn main() {\n    std::panic::set_hook(Box::new(|_| {}));\n"
+                   "    let r = std::panic::catch_unwind(|| { let x: U = bytemuck::pod_read_unaligned(&[0xffu8; %d]); format!(\"{:?}\", x.as_limbs()) });\n"
+                   "    match r { Ok(s) => println!(\"obtained {s}\"), Err(_) => println!(\"panic\") }\n}\n") % (b, l, 8 * l)
+            jobs.append((b, l, "pod_read", src))
 
     def one(job):
         b, l, name, src = job
@@ -135,6 +146,8 @@ def ctor_probes(workdir, quick):
         if c.returncode != 0:
             kind = "compile_error"
             # only errors about the type itself count; anything else (our probe is wrong) is a tool error
+            if name == "pod_read" and "E0277" in c.stderr:
+                return (b, l, name, kind, "")           # the Pod bound is not satisfied: the expected outcome for widths with unused bits
             if "evaluation of" not in c.stderr and "E0080" not in c.stderr and "panicked" not in c.stderr:
                 return (b, l, name, "tool_error", c.stderr[-400:])
             return (b, l, name, kind, "")
@@ -154,7 +167,7 @@ def ctor_probes(workdir, quick):
     for b, l, name, outcome, detail in results:
         if outcome == "tool_error":
             raise ToolError(f"constructor probe {name} for Uint<{b},{l}> failed to build for an unrelated reason: {detail}")
-        scn = {"g": "canon", "op": "ctor_probe", "bits": b, "limbs": l, "ctor": name}
+        scn = {"g": "canon", "op": "pod_probe" if name == "pod_read" else "ctor_probe", "bits": b, "limbs": l, "ctor": name}
         events.append((dict(scn, outcome=outcome, detail=detail, st="ok", pan=[]), set(scn.keys())))
     return events
 
